@@ -197,6 +197,37 @@ def run_shard(rec, tier, seed, shard, nshards):
                     break
                 compare(rec, prev, cur, "cycle %d" % (cyc + 1), w)
                 prev = cur
+            if ok and kind != "very-large" and s.size >= 2 and rng.random() < 0.4:
+                # ---- objects with a past: a screen that has been saved (s) or loaded and saved (prev) is then changed in
+                #      place the way the library changes screens (plates merged, a plate's results recorded) and saved again
+                for label, obj in (("saved before", s), ("loaded and saved before", prev)):
+                    changed = []
+                    try:
+                        un = [p for p in obj.plates if not p.is_observed]
+                        if un and rng.random() < 0.7:
+                            pl = un[int(rng.integers(len(un)))]
+                            obj.set_observed(pl.selection_vector.copy(), rng.random(pl.size))
+                            changed.append("set_observed")
+                        for same in (True, False):
+                            pls = [p for p in obj.plates if p.is_observed == same]
+                            if len(pls) >= 2 and rng.random() < 0.8:
+                                i, j = (int(x) for x in rng.choice(len(pls), size=2, replace=False))
+                                pls[i].merge(pls[j])
+                                changed.append("merge")
+                    except Exception as e:
+                        rec.did_not_return("change-in-place", e)
+                        continue
+                    if not changed:
+                        continue
+                    fn2 = os.path.join(tmp, "again.h5")
+                    try:
+                        obj.save_h5(fn2)
+                        back = Screen.load_h5(fn2)
+                    except Exception as e:
+                        rec.violation("C02/save/raises", "saving / loading a screen %s and then changed in place (%s) raised %r" % (label, "+".join(changed), e), w)
+                        continue
+                    rec.count("roundtrips_after_in_place_change")
+                    compare(rec, obj, back, "%s, then %s, saved again" % (label, "+".join(changed)), w)
             os.chdir(cwd0)
             fn = fn_abs
             if ok:
